@@ -312,6 +312,14 @@ func (p *parser) parseScheduleEvent(pos *Pos, n *yaml.Node) *ScheduledEvent {
 		m := p.parseMapping("element of \"schedule\" section", c, false, true)
 		if len(m) != 1 || m[0].id != "cron" {
 			p.error(c, "element of \"schedule\" section must be mapping and must contain one key \"cron\"")
+			// Keep the value of "cron" if any. Unexpected sibling keys must not hide errors in it
+			for _, kv := range m {
+				if kv.id == "cron" {
+					if s := p.parseString(kv.val, false); s != nil {
+						cron = append(cron, s)
+					}
+				}
+			}
 			continue
 		}
 		s := p.parseString(m[0].val, false)
